@@ -165,15 +165,15 @@ func (st *stress) doWrite(rows []influx.Row) error {
 	return writeRows(st.sh, rows)
 }
 
-func (st *stress) doQuery(kmin, kmax int64, asc bool) qresult {
+func (st *stress) doQuery(m string, kmin, kmax int64, asc bool) qresult {
 	if st.env != nil {
-		res, refErr := st.env.queryRange(mst, kmin, kmax, asc, nil)
+		res, refErr := st.env.queryRange(m, kmin, kmax, asc, nil)
 		if refErr != nil && res.err == nil {
 			res.err = refErr
 		}
 		return res
 	}
-	return runQuery(st.sh, kmin, kmax, asc)
+	return runQueryOf(st.sh, m, kmin, kmax, asc)
 }
 
 func (st *stress) doClose() error {
@@ -333,7 +333,7 @@ func (st *stress) reader(c int, r *gen.Rand, wg *sync.WaitGroup) {
 		}
 		qn++
 		if r.Chance(1, 6) && !st.closing.Load() {
-			st.countQuery(c, qn, ix)
+			st.countQuery(c, qn, ix, []string{mst, mst3}[r.Intn(2)])
 			continue
 		}
 		var kmin, kmax int64 = 0, kInf
@@ -343,11 +343,15 @@ func (st *stress) reader(c int, r *gen.Rand, wg *sync.WaitGroup) {
 			kmax = hi
 		}
 		asc := r.Chance(3, 4)
+		qm := mst
+		if r.Chance(1, 2) {
+			qm = mst3
+		}
 		fg, cg := st.flushGen.Load(), st.compGen.Load()
 		fl, cp := st.flushing.Load() > 0, st.compacting.Load() > 0
 		wasClosing := st.closing.Load()
 		startSeq := st.tick()
-		res := st.doQuery(kmin, kmax, asc)
+		res := st.doQuery(qm, kmin, kmax, asc)
 		endSeq := st.tick()
 		nowClosing := st.closing.Load()
 		atomic.AddInt64(&st.out.Queries, 1)
@@ -389,6 +393,11 @@ func (st *stress) reader(c int, r *gen.Rand, wg *sync.WaitGroup) {
 				ix.byPt[p] = append(ix.byPt[p], e)
 			}
 			ix.upto[w] = n
+		}
+		for p := range res.rows {
+			if mstOf(p.S) != qm {
+				st.fail("malformed-row", c, qn, "series %d of measurement %s returned by a query on %s", p.S, mstOf(p.S), qm)
+			}
 		}
 		// mark series visibility
 		for p := range res.rows {
@@ -440,7 +449,7 @@ func (st *stress) reader(c int, r *gen.Rand, wg *sync.WaitGroup) {
 		}
 		// completeness: all points acknowledged before the query started (series already visible in the index)
 		for p, ents := range ix.byPt {
-			if p.K < kmin || p.K > kmax {
+			if p.K < kmin || p.K > kmax || mstOf(p.S) != qm {
 				continue
 			}
 			if _, ok := res.rows[p]; ok {
@@ -459,7 +468,7 @@ func (st *stress) reader(c int, r *gen.Rand, wg *sync.WaitGroup) {
 		}
 		// successive queries of this client never lose a point
 		for p := range everSeen {
-			if p.K < kmin || p.K > kmax {
+			if p.K < kmin || p.K > kmax || mstOf(p.S) != qm {
 				continue
 			}
 			if _, ok := res.rows[p]; !ok {
@@ -483,9 +492,9 @@ func (st *stress) reader(c int, r *gen.Rand, wg *sync.WaitGroup) {
 // metadata where the files allow it).  DIRECT ORACLE per visible series: at least the distinct points acknowledged
 // before the query started, at most the number of WRITES (versions) begun when it ended - a view that held the
 // snapshot table together with a file flushed from it counts every write of that table twice.
-func (st *stress) countQuery(c, qn int, ix *ridx) {
+func (st *stress) countQuery(c, qn int, ix *ridx, qm string) {
 	startSeq := st.tick()
-	counts, err := runCount(st.sh, mst, 1, kInf)
+	counts, err := runCount(st.sh, qm, 1, kInf)
 	endSeq := st.tick()
 	atomic.AddInt64(&st.out.CountQueries, 1)
 	if st.closing.Load() {
@@ -532,7 +541,7 @@ func (st *stress) countQuery(c, qn int, ix *ridx) {
 	}
 	for s := 0; s < st.nseries(); s++ {
 		vis := st.seen[s].Load()
-		if vis == 0 || vis >= startSeq {
+		if vis == 0 || vis >= startSeq || mstOf(s) != qm {
 			continue
 		}
 		got := counts[s]
@@ -683,6 +692,7 @@ func (st *stress) raftLookups(r *gen.Rand, wg *sync.WaitGroup) {
 }
 
 func runStress(cfg stressCfg) stressOut {
+	twoMeasurements = true
 	st := &stress{cfg: cfg}
 	st.out.Kind = "stress"
 	st.out.Cfg = cfg
@@ -729,7 +739,14 @@ func runStress(cfg stressCfg) stressOut {
 	sh.FlushIndex()
 	deadline := time.Now().Add(10 * time.Second)
 	for {
-		res := st.doQuery(0, kInf, true)
+		res := st.doQuery(mst, 0, kInf, true)
+		if res.err == nil {
+			res3 := st.doQuery(mst3, 0, kInf, true)
+			res.err = res3.err
+			for p, x := range res3.rows {
+				res.rows[p] = x
+			}
+		}
 		if res.err == nil && len(res.rows) == len(warm) {
 			t := st.tick()
 			for p := range res.rows {
